@@ -477,3 +477,24 @@ def gen_error_program(rng: random.Random, idx: int) -> Dict[str, Any]:
         toks = [["lp"], ["int", "1"], ["op", "PLUS"], ["int", "2"]]
         st = {"k": "const", "name": "A", "rhs": {"k": "toks", "toks": toks, "text": "(1 + 2"}}
     return {"stream": "error:" + kind, "files": [{"name": f"err{idx}", "stmts": pre + [st]}]}
+
+
+def escape_sweep_programs(start_idx: int) -> List[Dict[str, Any]]:
+    """every printable ASCII character X after a backslash (value a, backslash, X, b) and a few
+    multi-character escape shapes: exercises the per-language literal readers (inside the
+    str-escape class: the values contain a backslash)"""
+    vals = ["a\\" + chr(x) + "b" for x in range(32, 127)]
+    vals += ["\\x4", "\\x41", "\\x414", "\\1", "\\12", "\\123", "\\1234", "\\400", "\\08", "\\xg", "q\\", "\\\\",
+             "\\u00e9", "\\U000000e9", "\\N{DASH}", "\\ \n", "a\\\nb", "\\\r"]
+    progs = []
+    k = start_idx
+    for i in range(0, len(vals), 4):
+        stmts = []
+        for j, v in enumerate(vals[i:i + 4]):
+            spelled = "".join("\\" + REV_ESC[c] if c in ('"', "\\", "\n", "\r") else c for c in v)
+            stmts.append({"k": "const", "name": f"S{j}", "rhs": {"k": "str", "raw": list(spelled.encode("utf-8"))}})
+        stmts.append({"k": "const", "name": "ZZ_END", "rhs": {"k": "calc", "expr": ["dec", 0], "toks": [["int", "0"]],
+                                                             "text": "0", "minimal": True}})
+        progs.append({"stream": "str-inside", "files": [{"name": f"sweep{k}", "stmts": stmts}]})
+        k += 1
+    return progs
